@@ -379,7 +379,7 @@ theorem constructor_orders_centres (E : Env K) (thr : K) (m : Tree K) (bs : List
       StrictAsc b.edges ∧ b.binflux.length = b.binset.length := by
   rw [initBins_eq] at h
   obtain ⟨edges, w, flux, r, he, hw, hf, hcall, rfl⟩ := initBinsFrom_inv E thr m _ useC b h
-  obtain ⟨hA, hor, _, _⟩ := ascOrder_valid bs hv
+  obtain ⟨hA, hor, _, _⟩ := ascCentres_valid bs hv
   obtain ⟨e, rs, hrs, rfl⟩ := callBin_ok _ _ _ _ _ _ hcall
   refine ⟨hor, hA, he, binEdges_strictAsc _ _ hA he, ?_⟩
   have := mapM_ok_length _ _ _ hrs
@@ -391,7 +391,7 @@ theorem constructor_orders_centres (E : Env K) (thr : K) (m : Tree K) (bs : List
 theorem constructor_order_irrelevant (E : Env K) (thr : K) (m : Tree K) (bs : List K) (useC : Bool)
     (hv : validateWavelengths bs = .ok ()) :
     initBins E thr m bs.reverse useC = initBins E thr m bs useC := by
-  rw [initBins_eq, initBins_eq, (ascOrder_valid bs hv).2.2.2]
+  rw [initBins_eq, initBins_eq, (ascCentres_valid bs hv).2.2.2]
 
 /-- … for the whole observation -/
 theorem observation_order_irrelevant (E : Env K) (P : OverlapPar K) (src band : Spec K) (bs : List K)
@@ -427,12 +427,12 @@ theorem conservation_constructed (E : Env K) (thr : K) (m : Tree K) (bs : List K
         (gridSlice b.flux (searchLeft b.spwave (b.edges.headD 0)) (searchLeft b.spwave (b.edges.getLastD 0))) := by
   rw [initBins_eq] at h
   obtain ⟨edges, w, flux, r, he, hw, hf, hcall, rfl⟩ := initBinsFrom_inv E thr m _ useC b h
-  obtain ⟨hA, _, _, _⟩ := ascOrder_valid bs hv
+  obtain ⟨hA, _, _, _⟩ := ascCentres_valid bs hv
   obtain ⟨e, rs, hrs, rfl⟩ := callBin_ok _ _ _ _ _ _ hcall
   simp only
-  have hfl : flux.length = (mergedGrid thr edges (ascOrder bs) w).length := mapM_ok_length _ _ _ hf
+  have hfl : flux.length = (mergedGrid thr edges (ascCentres bs) w).length := mapM_ok_length _ _ _ hf
   have hes := binEdges_strictAsc _ _ hA he
-  have hlen : (pairSums flux).length = (pairDiffs (mergedGrid thr edges (ascOrder bs) w)).length := by
+  have hlen : (pairSums flux).length = (pairDiffs (mergedGrid thr edges (ascCentres bs) w)).length := by
     rw [pairSums_eq_adjMap, pairDiffs_eq_adjMap, adjMap_length, adjMap_length, hfl]
   rw [zip_dropLast_tail] at hrs ⊢
   rw [← mapM_binOne_snd _ _ _ _ _ hrs, mulFactors_map_fst_snd, binned_sum _ _ _ _ _ hrs]
@@ -440,10 +440,10 @@ theorem conservation_constructed (E : Env K) (thr : K) (m : Tree K) (bs : List K
   have h2 := (C18.edges_ok_iff _).mp ⟨edges, he⟩
   rcases edges with _ | ⟨e0, et⟩
   · simp at hel
-  · have hchain := map_searchLeft_chain (mergedGrid thr (e0 :: et) (ascOrder bs) w) (e0 :: et) hes
+  · have hchain := map_searchLeft_chain (mergedGrid thr (e0 :: et) (ascCentres bs) w) (e0 :: et) hes
     simp only [List.map_cons, List.drop_succ_cons, List.drop_zero] at hchain ⊢
     rw [contiguous_bins_tile _ _ hlen _ _ hchain, segFlux_eq_trapz _ _ hfl.symm]
-    have hlast := getLast_cons_map (searchLeft (mergedGrid thr (e0 :: et) (ascOrder bs) w)) et e0
+    have hlast := getLast_cons_map (searchLeft (mergedGrid thr (e0 :: et) (ascCentres bs) w)) et e0
     rw [hlast]
     rfl
 
@@ -462,7 +462,7 @@ theorem conservation_between_edges (E : Env K) (thr : K) (m : Tree K) (bs : List
   · rw [← hcons]
     rw [initBins_eq] at h
     obtain ⟨edges, w, flux, r, he, hw, hf, hcall, rfl⟩ := initBinsFrom_inv E thr m _ useC b h
-    obtain ⟨hA, _, _, _⟩ := ascOrder_valid bs hv
+    obtain ⟨hA, _, _, _⟩ := ascCentres_valid bs hv
     simp only at hedge hbw ⊢
     have hes := binEdges_strictAsc _ _ hA he
     rw [zip_dropLast_tail, widths_eq_absDiffs _ (mergedGrid_strictAsc _ _ _ _) edges hes hedge]
@@ -479,24 +479,24 @@ theorem conservation_between_edges (E : Env K) (thr : K) (m : Tree K) (bs : List
     have hel := C18.edges_length _ _ he
     rcases edges with _ | ⟨e0, et⟩
     · simp at hel
-    · obtain ⟨h1, h2⟩ := searchLeft_mem _ (mergedGrid_strictAsc thr (e0 :: et) (ascOrder bs) w) e0
+    · obtain ⟨h1, h2⟩ := searchLeft_mem _ (mergedGrid_strictAsc thr (e0 :: et) (ascCentres bs) w) e0
         (hedge e0 (by simp))
       rw [List.headD_cons, gridSlice_head? _ _ _ h1, h2]; rfl
   · rw [initBins_eq] at h
     obtain ⟨edges, w, flux, r, he, hw, hf, hcall, rfl⟩ := initBinsFrom_inv E thr m _ useC b h
-    obtain ⟨hA, _, _, _⟩ := ascOrder_valid bs hv
+    obtain ⟨hA, _, _, _⟩ := ascCentres_valid bs hv
     simp only at hedge ⊢
     have hes := binEdges_strictAsc _ _ hA he
     have hel := C18.edges_length _ _ he
     rcases edges with _ | ⟨e0, et⟩
     · simp at hel
-    · have hsp := mergedGrid_strictAsc thr (e0 :: et) (ascOrder bs) w
+    · have hsp := mergedGrid_strictAsc thr (e0 :: et) (ascCentres bs) w
       have hlm : (e0 :: et).getLastD 0 ∈ (e0 :: et) := by
         rw [List.getLastD_eq_getLast?, List.getLast?_eq_some_getLast (List.cons_ne_nil e0 et)]
         exact List.getLast_mem _
       obtain ⟨h1, h2⟩ := searchLeft_mem _ hsp _ (hedge _ hlm)
-      have hle : searchLeft (mergedGrid thr (e0 :: et) (ascOrder bs) w) ((e0 :: et).headD 0) ≤
-          searchLeft (mergedGrid thr (e0 :: et) (ascOrder bs) w) ((e0 :: et).getLastD 0) := by
+      have hle : searchLeft (mergedGrid thr (e0 :: et) (ascCentres bs) w) ((e0 :: et).headD 0) ≤
+          searchLeft (mergedGrid thr (e0 :: et) (ascCentres bs) w) ((e0 :: et).getLastD 0) := by
         apply searchLeft_mono
         rw [List.headD_cons, List.getLastD_cons]
         exact strictAsc_head_le_last et e0 hes
@@ -537,13 +537,13 @@ theorem binflux_between_constructed (E : Env K) (thr : K) (m : Tree K) (bs : Lis
   obtain ⟨edges, w, flux, r, he, hw, hf, hcall, rfl⟩ := initBinsFrom_inv E thr m _ useC b h
   obtain ⟨e, rs, hrs, rfl⟩ := callBin_ok _ _ _ _ _ _ hcall
   simp only at hk hb ⊢
-  have hfl : flux.length = (mergedGrid thr edges (ascOrder bs) w).length := mapM_ok_length _ _ _ hf
-  have hlen : (pairSums flux).length = (pairDiffs (mergedGrid thr edges (ascOrder bs) w)).length := by
+  have hfl : flux.length = (mergedGrid thr edges (ascCentres bs) w).length := mapM_ok_length _ _ _ hf
+  have hlen : (pairSums flux).length = (pairDiffs (mergedGrid thr edges (ascCentres bs) w)).length := by
     rw [pairSums_eq_adjMap, pairDiffs_eq_adjMap, adjMap_length, adjMap_length, hfl]
   have hrl := mapM_ok_length _ _ _ hrs
   have hk' : k < rs.length := by simpa using hk
-  have hkz : k < ((edges.map (searchLeft (mergedGrid thr edges (ascOrder bs) w))).dropLast.zip
-      ((edges.map (searchLeft (mergedGrid thr edges (ascOrder bs) w))).drop 1)).length := by omega
+  have hkz : k < ((edges.map (searchLeft (mergedGrid thr edges (ascCentres bs) w))).dropLast.zip
+      ((edges.map (searchLeft (mergedGrid thr edges (ascCentres bs) w))).drop 1)).length := by omega
   have hone := mapM_ok_getD _ _ _ hrs k hkz (0, 0) (0, 0)
   rw [List.length_zip] at hkz
   rw [zip_getD _ _ k (by omega) (by omega)] at hone
@@ -552,8 +552,8 @@ theorem binflux_between_constructed (E : Env K) (thr : K) (m : Tree K) (bs : Lis
       List.getElem?_eq_getElem hk']
     rfl
   rw [hbf]
-  set p : Nat × Nat := ((edges.map (searchLeft (mergedGrid thr edges (ascOrder bs) w))).dropLast.getD k 0,
-    ((edges.map (searchLeft (mergedGrid thr edges (ascOrder bs) w))).drop 1).getD k 0) with hp
+  set p : Nat × Nat := ((edges.map (searchLeft (mergedGrid thr edges (ascCentres bs) w))).dropLast.getD k 0,
+    ((edges.map (searchLeft (mergedGrid thr edges (ascCentres bs) w))).drop 1).getD k 0) with hp
   rcases hr : rs.getD k (0, 0) with ⟨bk, wk⟩
   rw [hr] at hone
   have hbounds := binflux_between_min_max e _ _ p bk wk mn mx hone hlen
@@ -590,7 +590,7 @@ theorem constructor_call_consistent (E : Env K) (thr : K) (m : Tree K) (bs : Lis
     ConsistentCall b.ibeg b.iend (pairSums b.flux) (pairDiffs b.spwave) := by
   rw [initBins_eq] at h
   obtain ⟨edges, w, flux, r, he, hw, hf, hcall, rfl⟩ := initBinsFrom_inv E thr m _ useC b h
-  obtain ⟨hA, _, _, _⟩ := ascOrder_valid bs hv
+  obtain ⟨hA, _, _, _⟩ := ascCentres_valid bs hv
   exact constructed_call_consistent _ flux edges (mergedGrid_strictAsc _ _ _ _)
     (binEdges_strictAsc _ _ hA he) hedge (mapM_ok_length _ _ _ hf)
 
@@ -605,8 +605,8 @@ theorem constructor_indices (E : Env K) (thr : K) (m : Tree K) (bs : List K) (us
       b.flux.length = b.spwave.length := by
   rw [initBins_eq] at h
   obtain ⟨edges, w, flux, r, he, hw, hf, hcall, rfl⟩ := initBinsFrom_inv E thr m _ useC b h
-  obtain ⟨hA, _, _, _⟩ := ascOrder_valid bs hv
-  have hfl : flux.length = (mergedGrid thr edges (ascOrder bs) w).length := mapM_ok_length _ _ _ hf
+  obtain ⟨hA, _, _, _⟩ := ascCentres_valid bs hv
+  have hfl : flux.length = (mergedGrid thr edges (ascCentres bs) w).length := mapM_ok_length _ _ _ hf
   refine ⟨_, rfl, rfl, rfl, map_searchLeft_chain _ _ (binEdges_strictAsc _ _ hA he), ?_,
     pairDiffs_pos _ (mergedGrid_strictAsc _ _ _ _), mergedGrid_strictAsc _ _ _ _, mergedGrid_pos _ _ _ _, hfl⟩
   simp only
@@ -642,10 +642,10 @@ theorem observation_impls_agree (E : Env K) (P : OverlapPar K) (src band : Spec 
 the same bins (neither a `ZeroDivisionError` nor a NaN) -/
 theorem constructor_returns (E : Env K) (thr : K) (m : Tree K) (bs : List K)
     (hv : validateWavelengths bs = .ok ()) (w : Option (List K)) (hw : m.waveset thr = .ok w)
-    (heval : ∀ x, 0 < x → ∃ y, m.eval E x = .ok y) (edges : List K) (he : binEdges (ascOrder bs) = .ok edges)
-    (hedge : ∀ e ∈ edges, e ∈ mergedGrid thr edges (ascOrder bs) w) :
-    ∃ b, initBins E thr m bs true = .ok b ∧ initBins E thr m bs false = .ok b ∧ b.binset = ascOrder bs ∧
-      b.edges = edges ∧ b.spwave = mergedGrid thr edges (ascOrder bs) w ∧
+    (heval : ∀ x, 0 < x → ∃ y, m.eval E x = .ok y) (edges : List K) (he : binEdges (ascCentres bs) = .ok edges)
+    (hedge : ∀ e ∈ edges, e ∈ mergedGrid thr edges (ascCentres bs) w) :
+    ∃ b, initBins E thr m bs true = .ok b ∧ initBins E thr m bs false = .ok b ∧ b.binset = ascCentres bs ∧
+      b.edges = edges ∧ b.spwave = mergedGrid thr edges (ascCentres bs) w ∧
       sampleTree E m b.spwave = .ok b.flux :=
   initBins_succeeds E thr m bs hv w hw heval edges he hedge
 
